@@ -13,5 +13,5 @@ rep={sys.argv[2]:sys.argv[1]}
 if os.path.exists(sys.argv[4]): rep[sys.argv[3]+"/lib/controller/localdb/login_pam.go"]=sys.argv[4]
 print(json.dumps({"Replace":rep}))
 PY
-name=$(grep -o 'func Test[A-Za-z0-9_]*' $f | head -1 | awk '{print $2}')
+X
 cd $repo && go test -overlay $tmp/ov.json -vet=off -count=1 -timeout 120s -run "^${name}\$" ./$pkgdir
